@@ -1,10 +1,12 @@
 // Native replay for C20 against the REAL STIR libraries of /repo's working tree.
 // usage: c20_replay indata <num_rings> <num_detectors_per_ring> <max_ring_diff> <fan_size>   FanProjData::is_in_data / operator() against the fan geometry (ASan)
+//        c20_replay gaps                                                                       the same on a scanner with virtual crystals: gap bins get the gap value
 //        c20_replay roundtrip                                                                  proj data -> fan data -> proj data is lossless inside the fan
 // exit 0: as specified; exit 1 + CONFIRMED line otherwise
 #include "stir/ML_norm.h"
 #include "stir/ProjDataInMemory.h"
 #include "stir/ProjDataInfo.h"
+#include "stir/ProjDataInfoCylindricalNoArcCorr.h"
 #include "stir/ExamInfo.h"
 #include "stir/Scanner.h"
 #include "stir/Bin.h"
@@ -66,12 +68,52 @@ static int roundtrip()
   return 0;
 }
 
+// scanner with virtual crystals (ECAT 1080: one virtual crystal per block, axially and transaxially): proj data -> fan data
+// -> proj data restores every bin whose four crystals are physical and fills every other bin of the fan with gap_value
+static int gaps()
+{
+  shared_ptr<Scanner> scanner(new Scanner(Scanner::E1080));
+  const int N = scanner->get_num_detectors_per_ring();
+  shared_ptr<ProjDataInfo> info(ProjDataInfo::ProjDataInfoCTI(scanner, 1, 12, N / 2, 17, false));
+  auto cyl = dynamic_pointer_cast<ProjDataInfoCylindricalNoArcCorr>(info);
+  shared_ptr<ExamInfo> exam(new ExamInfo);
+  ProjDataInMemory pd(exam, info), back(exam, info);
+  float x = 1.F;
+  for (int s = info->get_min_segment_num(); s <= info->get_max_segment_num(); ++s)
+    for (int a = info->get_min_axial_pos_num(s); a <= info->get_max_axial_pos_num(s); ++a)
+      for (int v = 0; v < info->get_num_views(); ++v)
+        for (int t = info->get_min_tangential_pos_num(); t <= info->get_max_tangential_pos_num(); ++t)
+          { pd.set_bin_value(Bin(s, v, a, t, 0, x)); x = x > 60000.F ? 1.F : x + 1.F; }
+  FanProjData fan;
+  make_fan_data_remove_gaps(fan, pd);
+  set_fan_data_add_gaps(back, fan, -7.F);
+  const int CT = scanner->get_num_transaxial_crystals_per_block(), VT = scanner->get_num_virtual_transaxial_crystals_per_block();
+  const int CA = scanner->get_num_axial_crystals_per_block(), VA = scanner->get_num_virtual_axial_crystals_per_block();
+  for (int s = info->get_min_segment_num(); s <= info->get_max_segment_num(); ++s)
+    for (int a = info->get_min_axial_pos_num(s); a <= info->get_max_axial_pos_num(s); ++a)
+      for (int v = 0; v < info->get_num_views(); ++v)
+        for (int t = info->get_min_tangential_pos_num(); t <= info->get_max_tangential_pos_num(); ++t)
+          {
+            Bin b1(s, v, a, t), b2(s, v, a, t);
+            int da, ra, db, rb;
+            cyl->get_det_pair_for_bin(da, ra, db, rb, b1);
+            const bool physical = da % CT < CT - VT && db % CT < CT - VT && ra % CA < CA - VA && rb % CA < CA - VA;
+            const float want = physical ? pd.get_bin_value(b1) : -7.F, got = back.get_bin_value(b2);
+            if (got != want)
+              { std::printf("CONFIRMED proj data -> fan data -> proj data (ECAT 1080): bin (seg %d, ax %d, view %d, tang %d) = detectors (ring %d, det %d)-(ring %d, det %d) [%s] should come back as %g, is %g\n",
+                            s, a, v, t, ra, da, rb, db, physical ? "all physical" : "contains a virtual crystal", want, got); return 1; }
+          }
+  std::printf("REPLAY ok\n");
+  return 0;
+}
+
 int main(int argc, char** argv)
 {
   try
     {
       if (argc >= 6 && !strcmp(argv[1], "indata")) return indata(atoi(argv[2]), atoi(argv[3]), atoi(argv[4]), atoi(argv[5]));
       if (argc >= 2 && !strcmp(argv[1], "roundtrip")) return roundtrip();
+      if (argc >= 2 && !strcmp(argv[1], "gaps")) return gaps();
     }
   catch (...)
     {
